@@ -227,6 +227,8 @@ func genProbeConsts() {
 			die("%s: GetInfo/GetIndexes do not take (ctx, host)", ep.pos(escan))
 		}
 		boolean("elastic_calls_use_rec_host", probeSprintf(ep, escan, gi.Args[1]) == rf["Host"] && probeSprintf(ep, escan, gx.Args[1]) == rf["Host"])
+		ew, ea := probeRecvMutations(escan)
+		fmt.Fprintf(&b, "Definition elastic_scan_shared_state : list string := %s%%string.\n", coqStringList(append(ew, ea...)))
 		boolean("elastic_calls_use_scan_ctx", probeExprString(gi.Args[0]) == "ctx" && probeExprString(gx.Args[0]) == "ctx")
 	})
 	for _, nm := range []string{"GetInfo", "GetIndexes"} {
@@ -249,6 +251,8 @@ func genProbeConsts() {
 		if len(dec) != 1 || len(nrc) != 1 || len(nrc[0].Args) != 4 {
 			die("%s: Get does not build one request with context and decode once", ep.pos(eget))
 		}
+		gw, ga := probeRecvMutations(eget)
+		fmt.Fprintf(&b, "Definition elastic_get_shared_state : list string := %s%%string.\n", coqStringList(append(gw, ga...)))
 		str("elastic_get_method", strings.Trim(probeExprString(nrc[0].Args[1]), "\""))
 		boolean("elastic_get_checks_status", len(probeFindCalls(eget, "StatusCode")) > 0 || strings.Contains(nodeText(eget), "StatusCode"))
 	})
@@ -308,6 +312,8 @@ func genProbeConsts() {
 		fmt.Fprintf(&b, "Definition docker_client_opts : list string := %s%%string.\n", coqStringList(opts))
 		ic := probeFindCalls(dscan, "Info")[0]
 		vc := probeFindCalls(dscan, "ServerVersion")[0]
+		dw, da := probeRecvMutations(dscan)
+		fmt.Fprintf(&b, "Definition docker_scan_shared_state : list string := %s%%string.\n", coqStringList(append(dw, da...)))
 		boolean("docker_calls_use_timeout_ctx", len(ic.Args) == 1 && len(vc.Args) == 1 &&
 			probeExprString(ic.Args[0]) == "ctx" && probeExprString(vc.Args[0]) == "ctx")
 	})
